@@ -272,7 +272,9 @@ def run(tier):
     rep.rule = ("(a) a fixed set of probe programs x every insertion point x every text of length <= L over a 10-character "
                 "adversarial alphabet x {Comment, Assert comment, subroutine name}; (b) every base recipe x every insertion "
                 "point x {Comment, Pragma, Nonce(3 bases)} x a list of nasty texts / valid payloads")
-    _CFGS = [rb.Cfg(6, "A"), rb.Cfg(8, "A")] if tier == "quick" else [rb.Cfg(4, "A"), rb.Cfg(6, "A"), rb.Cfg(8, "A"), rb.Cfg(10, "A", scratch_slots=False)]
+    # version 2 is there for the Assert fallback (no `assert` opcode: bnz/err), version 3 for the first `assert`
+    _CFGS = [rb.Cfg(2, "A"), rb.Cfg(6, "A"), rb.Cfg(8, "A")] if tier == "quick" else \
+        [rb.Cfg(2, "A"), rb.Cfg(3, "A"), rb.Cfg(4, "A"), rb.Cfg(6, "A"), rb.Cfg(8, "A"), rb.Cfg(10, "A", scratch_slots=False)]
     L = 3 if tier == "quick" else 4
     all_texts = texts(L)
     rep.bounds["text_max_len"] = L
